@@ -43,6 +43,7 @@ EllT(k, d, inc) == Base(k, inc) @@ [w |-> 8, h |-> 20, d |-> d]                 
 RegsNear == {Ell(k, d, "absent") : k \in {"ellipse", "rectangle"}, d \in {<<1, 0, 1>>, <<0, 1, 1>>}} \cup {EAnn("eannulus", <<1, 0, 1>>, "absent")}
 RegsC07 == {Circle("absent"), CAnn("absent")} \cup {Ell(k, d, "absent") : k \in {"ellipse", "rectangle"}, d \in DirsAll}
            \cup {EllT(k, d, "absent") : k \in {"ellipse", "rectangle"}, d \in Dirs5}
+           \cup {Base(k, "absent") @@ [w1 |-> 6, h1 |-> 6, w2 |-> 14, h2 |-> 14, d |-> d] : k \in {"eannulus", "rannulus"}, d \in Dirs5}   \* square / round bounds: the angle still matters for rectangles
            \cup {EAnn(k, d, "absent") : k \in {"eannulus", "rannulus"}, d \in Dirs5}
 
 (* round trip is the identity on class, geometry, include flag and visual, for every class incl. compounds *)
